@@ -187,6 +187,7 @@ class RowLoop:
         self.mode = None        # 'index' (pre-allocated, out[idx] = ...) or 'append' (empty list, out.append(...))
         self.alloc = None
         self.once = False       # exactly one write of the row's result on every path through the body
+        self.others = {}        # further names bound by zip(...): name -> the per-row array it walks over
 
 
 def _count_writes(stmts, is_write):
@@ -224,6 +225,7 @@ def _zip_members(fn, loop, rows, seeds):
             all(isinstance(e, _ast.Name) for e in tg.elts)):
         return None
     row = seed = None
+    others = {}
     for a, t in zip(it.args, tg.elts):
         s = _ast.unparse(a)
         if s == rows and row is None:
@@ -231,6 +233,7 @@ def _zip_members(fn, loop, rows, seeds):
         elif seeds and s == seeds and seed is None:
             seed = t.id
         elif isinstance(a, _ast.Name):
+            others[t.id] = a.id
             defs = [x.value for x in _ast.walk(fn.node) if isinstance(x, _ast.Assign) and len(x.targets) == 1 and
                     isinstance(x.targets[0], _ast.Name) and x.targets[0].id == a.id]
             if not (len(defs) == 1 and isinstance(defs[0], _ast.Call) and isinstance(defs[0].func, _ast.Attribute) and
@@ -242,7 +245,7 @@ def _zip_members(fn, loop, rows, seeds):
         return None
     if row is None:
         return None
-    return idx, row, seed
+    return idx, row, seed, others
 
 
 def row_loop_info(fn):
@@ -261,7 +264,7 @@ def row_loop_info(fn):
         if its == "enumerate(%s)" % rows and names and len(names) == 2 and all(names):
             info.idx, info.row = names
         elif zipped is not None:
-            info.idx, info.row, info.seed = zipped
+            info.idx, info.row, info.seed, info.others = zipped
         elif seeds and its == "zip(%s, %s)" % (rows, seeds) and names and len(names) == 2 and all(names):
             info.row, info.seed = names
         elif seeds and its == "zip(%s, %s)" % (seeds, rows) and names and len(names) == 2 and all(names):
